@@ -28,11 +28,14 @@ CONSTANTS NC,          \* connect() coroutine instances (1..NU are user calls, t
           MaxConn,     \* connection attempts the gateway sees
           MaxRefuse, MaxFeed, MaxEof,
           SlowSet,     \* the states ("C", "D", "X") whose status callback suspends; the others return at once
+          NCl,         \* close() calls the user makes (1, or 2: a second call while the first is still at work, or after the
+                       \* first was abandoned by its caller inside its suspending CLOSED notification)
           CfgWrite     \* TRUE: the serial client, whose connect attempt writes a configuration packet to the freshly
                        \* opened port (WaveShareNmea2000Gateway._connect_impl); a failing write fails the attempt
 
 Conns == 1..MaxConn
 Insts == 1..NC
+Closers == 1..NCl
 
 VARIABLES st, lock, cpc, ck, cconn, cwake, cs, nconn, writer,
           rpc, rcancel, rconn, rwake, avail, q, ppc, pcancel,
@@ -58,7 +61,7 @@ Init ==
   /\ rpc = [c \in Conns |-> "none"] /\ rcancel = [c \in Conns |-> FALSE] /\ rconn = [c \in Conns |-> 0]
   /\ rwake = [c \in Conns |-> -1] /\ avail = [c \in Conns |-> 0]
   /\ q = 0 /\ ppc = "get" /\ pcancel = FALSE
-  /\ clpc = "none" /\ clwake = -1 /\ now = 0 /\ mon = MonInit
+  /\ clpc = [j \in Closers |-> "none"] /\ clwake = [j \in Closers |-> -1] /\ now = 0 /\ mon = MonInit
   /\ refusals = 0 /\ feeds = 0 /\ eofs = 0 /\ spawned = NU
   /\ spc = "idle" /\ sconn = 0 /\ swake = -1
 
@@ -226,7 +229,7 @@ PGet ==
 \* a message taken from the queue just as close() runs is still handed over before the CLOSED test is reached
 PGetLast ==
   /\ UNCHANGED sendvars
-  /\ ppc = "get" /\ ~pcancel /\ q > 0 /\ st = "X" /\ clpc \notin {"done"}
+  /\ ppc = "get" /\ ~pcancel /\ q > 0 /\ st = "X" /\ \A j \in Closers : clpc[j] # "done"
   /\ q' = q - 1 /\ ppc' = "dead" /\ Emit(<<E("Deliver", st, now, 0, "", 0, "")>>)
   /\ UNCHANGED <<st, lock, cpc, ck, cconn, cwake, cs, nconn, writer, rpc, rcancel, rconn, rwake, avail, pcancel,
                  clpc, clwake, now, refusals, feeds, eofs, spawned>>
@@ -238,30 +241,43 @@ PCancelled ==
 
 ----------------------------------------------------------------------------
 (* close() *)
-ClosePq(evs) ==
+ClosePq(j, evs) ==
   IF ppc # "dead"
-  THEN /\ pcancel' = TRUE /\ clpc' = "sleep2" /\ clwake' = now + 10 /\ Emit(evs)
-  ELSE /\ clpc' = "done" /\ clwake' = -1 /\ Emit(evs \o <<E("RetClose", st', now, 0, "", 0, "")>>) /\ UNCHANGED pcancel
-CloseBody(evs0) ==
+  THEN /\ pcancel' = TRUE /\ clpc' = [clpc EXCEPT ![j] = "sleep2"] /\ clwake' = [clwake EXCEPT ![j] = now + 10] /\ Emit(evs)
+  ELSE /\ clpc' = [clpc EXCEPT ![j] = "done"] /\ clwake' = [clwake EXCEPT ![j] = -1]
+       /\ Emit(evs \o <<E("RetClose", st', now, 0, "", 0, "")>>) /\ UNCHANGED pcancel
+CloseBody(j, evs0) ==
   LET shutNow == writer # 0 /\ cs[writer] # "shut"
       evs == evs0 \o (IF shutNow THEN <<E("WriterClose", st', now, 0, "", writer, "")>> ELSE <<>>)
   IN /\ cs' = IF shutNow THEN [cs EXCEPT ![writer] = "shut"] ELSE cs
      /\ IF AliveR # {}
         THEN /\ rcancel' = [x \in Conns |-> IF x \in AliveR THEN TRUE ELSE rcancel[x]]
-             /\ clpc' = "sleep1" /\ clwake' = now + 10 /\ Emit(evs) /\ UNCHANGED pcancel
-        ELSE /\ ClosePq(evs) /\ UNCHANGED rcancel
+             /\ clpc' = [clpc EXCEPT ![j] = "sleep1"] /\ clwake' = [clwake EXCEPT ![j] = now + 10] /\ Emit(evs) /\ UNCHANGED pcancel
+        ELSE /\ ClosePq(j, evs) /\ UNCHANGED rcancel
 
-CallClose ==
+\* the user calls close(); a second call (j > 1) comes while the first is at work or after it returned or was abandoned.  The
+\* state is CLOSED from the first call on: a later call notifies nothing and goes through the same body - shut the link if
+\* it is not shut, cancel what is still alive, wait for the cancellations - before it returns.
+CallClose(j) ==
   /\ UNCHANGED sendvars
-  /\ clpc = "none"
+  /\ clpc[j] = "none" /\ (IF j = 1 THEN TRUE ELSE clpc[j - 1] # "none")
   /\ st' = "X"
   /\ LET evs == <<E("CallClose", st, now, 0, "", 0, "")>>
                   \o (IF st # "X" THEN <<E("Status", "X", now, 0, "CLOSED", 0, "")>> ELSE <<>>) IN
        IF "X" \in SlowSet /\ st # "X"
-       THEN /\ clpc' = "cb" /\ clwake' = now + CbPause /\ Emit(evs) /\ UNCHANGED <<cs, rcancel, pcancel>>
-       ELSE CloseBody(evs)
+       THEN /\ clpc' = [clpc EXCEPT ![j] = "cb"] /\ clwake' = [clwake EXCEPT ![j] = now + CbPause] /\ Emit(evs)
+            /\ UNCHANGED <<cs, rcancel, pcancel>>
+       ELSE CloseBody(j, evs)
   /\ UNCHANGED <<lock, cpc, ck, cconn, cwake, nconn, writer, rpc, rconn, rwake, avail, q, ppc, now, refusals, feeds,
                  eofs, spawned>>
+\* the caller gives the first close() up while it waits in its suspending notification (asyncio.wait_for): the call is
+\* cancelled there and never returns; nothing has been shut or cancelled yet.  (Explored only when a second call may follow.)
+AbandonClose ==
+  /\ UNCHANGED sendvars
+  /\ NCl > 1 /\ clpc[1] = "cb"
+  /\ clpc' = [clpc EXCEPT ![1] = "abandoned"] /\ clwake' = [clwake EXCEPT ![1] = -1] /\ Emit(<<>>)
+  /\ UNCHANGED <<st, lock, cpc, ck, cconn, cwake, cs, nconn, writer, rpc, rcancel, rconn, rwake, avail, q, ppc, pcancel,
+                 now, refusals, feeds, eofs, spawned>>
 
 ----------------------------------------------------------------------------
 (* timers: the earliest first; one that is not yet due fires only when nothing is ready to run (time then
@@ -274,7 +290,7 @@ Ready ==
                       \/ (rpc[r] = "reading" /\ (avail[rconn[r]] > 0 \/ cs[rconn[r]] \in {"eof", "shut"}))
   \/ (ppc = "get" /\ (q > 0 \/ pcancel))
 Sleepers == {cwake[i] : i \in {j \in Insts : cwake[j] >= 0}} \cup {rwake[r] : r \in {x \in Conns : rwake[x] >= 0}}
-            \cup (IF clwake >= 0 THEN {clwake} ELSE {}) \cup (IF swake >= 0 THEN {swake} ELSE {})
+            \cup {clwake[j] : j \in {x \in Closers : clwake[x] >= 0}} \cup (IF swake >= 0 THEN {swake} ELSE {})
 Earliest(w) == w >= 0 /\ \A x \in Sleepers : w <= x
 Tick(w) == now' = IF w > now THEN w ELSE now
 Due(w) == Earliest(w) /\ (~Ready \/ w <= now)
@@ -307,30 +323,31 @@ RWake(r) ==
   /\ rwake' = [rwake EXCEPT ![r] = -1] /\ rpc' = [rpc EXCEPT ![r] = "done"] /\ SpawnConnect
   /\ UNCHANGED <<st, lock, ck, cconn, cwake, cs, nconn, writer, rcancel, rconn, avail, q, ppc, pcancel, clpc, clwake, refusals, feeds, eofs>> /\ Emit(<<>>)
 
-ClWake ==
+ClWake(j) ==
   /\ UNCHANGED sendvars
-  /\ Due(clwake) /\ Tick(clwake)
+  /\ Due(clwake[j]) /\ Tick(clwake[j])
   /\ UNCHANGED st
-  /\ CASE clpc = "cb" ->
+  /\ LET Go(pc, w) == /\ clpc' = [clpc EXCEPT ![j] = pc] /\ clwake' = [clwake EXCEPT ![j] = w] IN
+     CASE clpc[j] = "cb" ->
             LET shutNow == writer # 0 /\ cs[writer] # "shut"
                 evs == IF shutNow THEN <<E("WriterClose", st, now', 0, "", writer, "")>> ELSE <<>>
             IN /\ cs' = IF shutNow THEN [cs EXCEPT ![writer] = "shut"] ELSE cs
                /\ IF AliveR # {}
                   THEN /\ rcancel' = [x \in Conns |-> IF x \in AliveR THEN TRUE ELSE rcancel[x]]
-                       /\ clpc' = "sleep1" /\ clwake' = now' + 10 /\ Emit(evs) /\ UNCHANGED pcancel
+                       /\ Go("sleep1", now' + 10) /\ Emit(evs) /\ UNCHANGED pcancel
                   ELSE /\ UNCHANGED rcancel
                        /\ IF ppc # "dead"
-                          THEN /\ pcancel' = TRUE /\ clpc' = "sleep2" /\ clwake' = now' + 10 /\ Emit(evs)
-                          ELSE /\ clpc' = "done" /\ clwake' = -1 /\ UNCHANGED pcancel
+                          THEN /\ pcancel' = TRUE /\ Go("sleep2", now' + 10) /\ Emit(evs)
+                          ELSE /\ Go("done", -1) /\ UNCHANGED pcancel
                                /\ Emit(evs \o <<E("RetClose", st, now', 0, "", 0, "")>>)
-       [] clpc = "sleep1" ->
+       [] clpc[j] = "sleep1" ->
             /\ UNCHANGED <<cs, rcancel>>
             /\ IF ppc # "dead"
-               THEN /\ pcancel' = TRUE /\ clpc' = "sleep2" /\ clwake' = now' + 10 /\ Emit(<<>>)
-               ELSE /\ clpc' = "done" /\ clwake' = -1 /\ UNCHANGED pcancel
+               THEN /\ pcancel' = TRUE /\ Go("sleep2", now' + 10) /\ Emit(<<>>)
+               ELSE /\ Go("done", -1) /\ UNCHANGED pcancel
                     /\ Emit(<<E("RetClose", st, now', 0, "", 0, "")>>)
-       [] clpc = "sleep2" ->
-            /\ clpc' = "done" /\ clwake' = -1 /\ Emit(<<E("RetClose", st, now', 0, "", 0, "")>>)
+       [] clpc[j] = "sleep2" ->
+            /\ Go("done", -1) /\ Emit(<<E("RetClose", st, now', 0, "", 0, "")>>)
             /\ UNCHANGED <<cs, rcancel, pcancel>>
   /\ UNCHANGED <<lock, cpc, ck, cconn, cwake, nconn, writer, rpc, rconn, rwake, avail, q, ppc, refusals, feeds, eofs,
                  spawned>>
@@ -397,7 +414,7 @@ SWake ==
 
 Client == \/ \E i \in Insts : UserConnect(i) \/ SpawnedStart(i) \/ COpened(i) \/ COpenFailed(i) \/ CCfgFail(i) \/ CWake(i)
           \/ \E r \in Conns : RStart(r) \/ RPacket(r) \/ RFault(r) \/ RCancelled(r) \/ RWake(r)
-          \/ PGet \/ PGetLast \/ PCancelled \/ CallClose \/ ClWake
+          \/ PGet \/ PGetLast \/ PCancelled \/ AbandonClose \/ \E j \in Closers : CallClose(j) \/ ClWake(j)
 Env == \E c \in Conns : GwAccept(c) \/ GwRefuse(c) \/ Feed(c) \/ Eof(c)
 Next == Client \/ Env \/ SendStart \/ SendOk \/ SendFail \/ SWake
 Spec == Init /\ [][Next]_vars
@@ -414,11 +431,11 @@ Quiescent == /\ ~Ready /\ Sleepers = {} /\ \A c \in Conns : cs[c] # "pending"
 \* never stuck: if the client was not closed and the gateway can still be tried, a quiescent client is
 \* connected and has a read outstanding on the current link (or the link is healthy and idle)
 NeverStuck ==
-  (Quiescent /\ clpc = "none" /\ nconn < MaxConn /\ \E i \in 1..NU : cpc[i] # "idle")
+  (Quiescent /\ (\A j \in Closers : clpc[j] = "none") /\ nconn < MaxConn /\ \E i \in 1..NU : cpc[i] # "idle")
      => (st = "C" /\ \E r \in Conns : rpc[r] = "reading" /\ rconn[r] = writer /\ cs[writer] = "open")
 \* after close() returned and everything settled: all tasks are gone, late links are shut
 AllShut ==
-  (Quiescent /\ clpc = "done") =>
+  (Quiescent /\ \E j \in Closers : clpc[j] = "done") =>
      /\ \A i \in Insts : cpc[i] \in {"idle", "done"}
      /\ \A r \in Conns : rpc[r] \in {"none", "done"}
      /\ ppc = "dead" /\ ~lock
